@@ -56,6 +56,13 @@ def programs(draw, target):
     start = gs.BASE_DAY + draw(st.sampled_from((0, 60, 90, 299)))
     prices = draw(gs.price_rows(n))
     with_ts = True if (head.get("tf") or any(m["tf"] for m in head.get("members", []))) else draw(st.sampled_from((True, True, False)))
+    if draw(st.integers(0, 3)) == 0:  # encodings must agree on any candle data, also a series that touches zero
+        for r in prices:
+            z = draw(st.sampled_from((0, 0, 0, 1, 2)))
+            if z == 1:
+                r[0] = r[2] = 0.0
+            elif z == 2:
+                r[0] = r[1] = r[2] = r[3] = 0.0
     rows = [[start + i * step if with_ts else None] + r for i, r in enumerate(prices)]
     ops, pos = [], 0
     reads = IND_READS if target == "indicator" else HX_READS
